@@ -11,6 +11,7 @@ use elf::string_table::StringTable;
 pub const DEF: PropDef = PropDef { id: "C13", strata, run, setup, canaries: &["panic"] };
 
 fn setup(ctx: &mut Ctx) {
+    ctx.floor("standalone:tables-at-a-nonzero-starting-offset", 1000);
     ctx.floor("requirement:some", 2000);
     ctx.floor("requirement:none", 2000);
     ctx.floor("definition:some", 2000);
@@ -154,6 +155,23 @@ fn standalone<E: EndianParse>(ctx: &mut Ctx, e: E, enc: Enc, m: &VersionModel, v
     let table = SymbolVersionTable::new(VersionIndexTable::new(e, class, &vb.versym), needs, defs);
     if !judge(ctx, "standalone", m, &table) {
         return;
+    }
+    // the same tables inside a larger image (a loaded segment, a whole file), handed over with their starting offsets
+    {
+        let (pn, pd) = (1 + ctx.rng.usize_below(40), 1 + ctx.rng.usize_below(40));
+        let mut nbuf = ctx.rng.bytes(pn);
+        nbuf.extend_from_slice(&vb.verneed);
+        nbuf.extend_from_slice(&ctx.rng.bytes(7));
+        let mut dbuf = ctx.rng.bytes(pd);
+        dbuf.extend_from_slice(&vb.verdef);
+        dbuf.extend_from_slice(&ctx.rng.bytes(7));
+        let needs = if m.has_needs { Some((VerNeedIterator::new(e, class, m.needs.len() as u64, pn, &nbuf), strs)) } else { None };
+        let defs = if m.has_defs { Some((VerDefIterator::new(e, class, m.defs.len() as u64, pd, &dbuf), dstrs)) } else { None };
+        let table = SymbolVersionTable::new(VersionIndexTable::new(e, class, &vb.versym), needs, defs);
+        ctx.count("standalone:tables-at-a-nonzero-starting-offset");
+        if !judge(ctx, "standalone-at-offset", m, &table) {
+            return;
+        }
     }
     // the record iterators under the std Iterator protocol
     if m.has_needs && m.needs.len() <= 12 {
